@@ -87,10 +87,22 @@ ADD = {
  'C17': " The line kinds include a @revoked line for the very key a host presents; a third host presents a host certificate of an authority no line names.",
  'C18': " Also all lists of length <=3 over {a, the EMPTY entry, b:2222} as comma list and through the module with 8 filters incl. //, /./, /.*/ and /^$/.",
 }
+# additions of the eighth round (DESIGN.md 9.11)
+ADD8 = {
+ 'C02': " Also (canonical schedule) all files of <=4 lines over {empty, short, exactly 1x/2x MaxLineLength, one byte more} through dcat and dgrep --invert.",
+ 'C04': " Also follows with MaxLineLength 2 and 3 over lines with 2-byte characters (the split falls inside a character).",
+ 'C05': " Two-field grouping over lines that lack either group field (the same value in different fields) in both tiers.",
+ 'C06': " Also default-format files with lines the parser rejects with an error; the controlled runtime's sync.Pool reports an object returned twice.",
+ 'C07': " Also dgrep sessions with --before 2 --after 1 over files whose every third line matches; the controlled runtime's sync.Pool reports an object returned twice.",
+ 'C14': " The connection-history search also has the event 'request a channel of another type (direct-tcpip)' on an open connection.",
+ 'C15': " Start states also include an outfile path that is a symbolic link to a complete earlier result, and a dangling link.",
+}
+for k, v in ADD8.items():
+    ADD[k] = ADD.get(k, "") + v
 for k, v in ADD.items():
     C[k]['text'] += v
     if '9.10' not in C[k]['ref']:
-        C[k]['ref'] += ", 9.10"
+        C[k]['ref'] += ", 9.10, 9.11"
 
 PENDING = "check not built yet in this session (work in progress; see DESIGN.md section 4)"
 checks = []
